@@ -108,7 +108,15 @@ NOT_APPLICABLE = {
     "C17": "parse / Display / toml round trip is str::split/trim/to_lowercase + core::fmt + toml + regex: no Verus specs, CBMC explodes per byte; level_sort/enabled on which it rests are under C02",
 }
 
-NOT_APPLICABLE["C20"] = "only DeferredNow::{new, now} (one timestamp per log call) is within reach and is verified (unit dnow, counted under C10); line assembly uses fn pointers and thread_local buffers outside both tools, the format functions are core::fmt / serde_json"
+TEXT["C20"] = ("Framing only. Verus proves on the code copied from /repo that every path that assembles a line hands exactly `bytes appended by the "
+               "configured format function` + `one configured line ending` to the output: both arms of the synchronous StateHandle::write closure (thread-local "
+               "buffer / temporary buffer; the buffer is empty again on every exit path, so no bytes of one record leak into the next line), SyncHandle::new "
+               "(the line ending used is the configured one), AsyncHandle::write (file, async), both arms of util::write_buffered (stdout / stderr / "
+               "duplicates: LF, result handed back), StdWriter::write (all three write modes; configured format function) and its writer thread (message "
+               "written as it is); DeferredNow::now reads the clock on the first call only and returns the stored value afterwards.",
+               "NOT decided: fidelity of the provided format functions and JSON validity (core::fmt / serde_json code, an oracle `fmt_bytes` here); that all "
+               "outputs of one record are handed the *same* DeferredNow (needs call history; only `now()` is idempotent is proved); the scaffolding around the "
+               "copied closure arms (buffer_with, RefCell::try_borrow_mut, thread_local) is not verified; format function and record are opaque values.")
 PENDING = "not reached yet in the build (units for this property are not registered); see DESIGN.md section 5"
 
 
